@@ -346,11 +346,12 @@ func ruleReserveRelease(c *chk.Ctx, d *dispatchModel) {
 		if !ok || !chk.LoadsField(mu.Map, c.M.SUsed) {
 			return
 		}
-		// a store of a by-contract non-nil value into X of the task parameter that dominates the reservation,
-		// and any later store to X in this function is also non-nil by contract
+		// a store of a by-contract non-nil value into X of the task that dominates the reservation
+		// or lies on every path from it to the end of the check/assign step (possibly in the
+		// function that called the reserving helper), and no store of anything else into X
 		dom := false
 		laterBad := false
-		ir.Instrs(d.setContext, func(i2 ssa.Instruction) {
+		c.P.ExtInstrs(d.checkAssign, func(i2 ssa.Instruction) {
 			st, ok := i2.(*ssa.Store)
 			if !ok {
 				return
@@ -360,22 +361,37 @@ func ruleReserveRelease(c *chk.Ctx, d *dispatchModel) {
 				return
 			}
 			nn := nonNilByContract(st.Val)
-			if nn && ir.InstrDominates(st, mu) {
-				dom = true
-			}
-			if nn && !dom {
-				// or the store lies on every path from the reservation to the function's exit
-				if ok, _ := (ir.PathQuery{Goal: func(i ssa.Instruction) bool { return i == ssa.Instruction(st) }}).MustReach(mu); ok {
-					dom = true
+			if !nn {
+				// the result of the reserving helper, all of whose returns are non-nil by contract
+				nn = true
+				n := 0
+				for _, src := range c.P.SourcesStop(st.Val, nonNilByContract) {
+					n++
+					if !nonNilByContract(src) {
+						nn = false
+					}
 				}
+				nn = nn && n > 0
 			}
 			if !nn {
 				laterBad = true
+				return
+			}
+			for _, a := range anchorsIn(c, mu, st.Parent()) {
+				if a == ssa.Instruction(mu) && ir.InstrDominates(st, mu) {
+					dom = true
+				}
+				if ok, _ := (ir.PathQuery{Goal: func(i ssa.Instruction) bool { return i == ssa.Instruction(st) }}).MustReach(a); ok {
+					dom = true
+				}
+			}
+			if st.Parent() == mu.Parent() && ir.InstrDominates(st, mu) {
+				dom = true
 			}
 		})
 		okX = dom && !laterBad
 		if !dom {
-			why = "no store of a non-nil value into task." + X.Name() + " dominates the reservation"
+			why = "no store of a non-nil value into task." + X.Name() + " dominates or inevitably follows the reservation"
 		}
 	})
 	c.Check(okX, "PAIR.release", d.setContext, "reserved ⇒ marked executed", markPos, "a response is marked 'not executed' when task."+X.Name()+" == nil, and the function that reserves an id always sets task."+X.Name()+" to a non-nil value first: every reservation is released with its reply",
